@@ -350,6 +350,10 @@ class Exec:
             if name in self.w.types and name not in BUILTINS: return TypeObj(self.w.types[name])
         # enclosing function closures (state vars live in env already)
         if name in fr.get('local_funcs', {}): return fr['local_funcs'][name]
+        if fr.get('class_scope') is not None:
+            for st in fr['class_scope'].body:
+                if isinstance(st, ast.Assign) and len(st.targets) == 1 and isinstance(st.targets[0], ast.Name) and st.targets[0].id == name:
+                    return self.eval(st.value)
         fn = fr.get('func')
         if fn is not None and fn.name == name and fr.get('contract') is not None and '<locals>' in fr['contract'].qual:
             return FuncRef(fr['rel'], fr['contract'].qual, fn)      # a nested function calling itself
@@ -566,6 +570,10 @@ class Exec:
     def int_to_str(self, v):
         # z3 int.to.str is defined for non-negative ints only
         t = v.t
+        # library lemma (cross-checked natively): str(n) for n >= 0 is a non-empty string of ASCII digits
+        self.vf.note_assumption('library lemma: str(n) of a non-negative int is a non-empty ASCII digit string whose int() is n')
+        self.assume(z3.Implies(t >= 0, z3.And(z3.InRe(z3.IntToStr(t), z3.Plus(z3.Range('0', '9'))), z3.StrToInt(z3.IntToStr(t)) == t)))
+        if not self.feasible(t < 0): return V(TStr, z3.IntToStr(t))
         return V(TStr, z3.If(t >= 0, z3.IntToStr(t), z3.Concat(z3.StringVal('-'), z3.IntToStr(-t))))
 
     def val(self, x):
@@ -736,6 +744,7 @@ class Exec:
             raise Unsupported('`is` on python-level objects')
         a = self.val(a); b = self.val(b)
         ta, tb = a.ty, b.ty
+        if ta is T.TMatch or tb is T.TMatch: return veq(a, b)
         if ta is TNone or tb is TNone or ta is TBool or tb is TBool or isinstance(ta, (TEnum, TRef, TAny)) or isinstance(tb, (TEnum, TRef, TAny)):
             return veq(a, b)
         if isinstance(ta, TOpt) or isinstance(tb, TOpt):
@@ -781,6 +790,11 @@ class Exec:
             if src:
                 m = self.find_method(src[0], src[1], dunder)
                 if m: return self.call_func(FuncRef(m[0], m[1].name + '.' + dunder, m[2], cls=m[1]), [a, b], {}, node)
+        if isinstance(a.ty, TRef) and a.ty.universal or isinstance(b.ty, TRef) and b.ty.universal:
+            # arithmetic / set algebra on opaque objects: an uninterpreted function of both operands
+            u = a.ty if isinstance(a.ty, TRef) and a.ty.universal else b.ty
+            self.vf.note_assumption('operator %s on opaque objects is uninterpreted' % opname)
+            return V(u, z3.Function('obj_' + opname + '_' + ''.join(ch if ch.isalnum() else '_' for ch in (a.ty.key + b.ty.key)), sort_of(a.ty), sort_of(b.ty), sort_of(u))(pack(a), pack(b)))
         if isinstance(a.ty, TEnum) and a.ty.intvalued: a = coerce(a, TInt)
         if isinstance(b.ty, TEnum) and b.ty.intvalued: b = coerce(b, TInt)
         if a.ty is TBool and opname not in ('BitOr', 'BitAnd', 'BitXor'): a = coerce(a, TInt)
@@ -905,8 +919,15 @@ class Exec:
         if isinstance(obj, TypeObj):
             if isinstance(obj.ty, TEnum) and attr in obj.ty.members: return V(obj.ty, obj.ty.const(attr))
             raise Unsupported('type attribute')
+        from . import strlib
+        if isinstance(obj, strlib.RegexV):
+            if attr in ('match', 'fullmatch', 'search'): return BoundBuiltin(obj, 're.' + attr)
+            raise Unsupported('regex attribute %s' % attr)
         if not isinstance(obj, V): raise Unsupported('attribute %s on %s' % (attr, type(obj).__name__))
         ty = obj.ty
+        if ty is T.TMatch:
+            if attr in ('group', 'groups', 'start', 'end'): return BoundBuiltin(obj, 'match.' + attr)
+            raise Unsupported('match attribute %s' % attr)
         if isinstance(ty, TOpt):
             if self.spec:
                 return self.getattr_obj(obj.t[1], attr, node)
@@ -941,6 +962,17 @@ class Exec:
                         return self.call_func(fr, [obj], {}, node)
                     if 'staticmethod' in decos: return fr
                     return BoundMethod(obj, fr, node.value if node is not None else None)
+                # class-level attribute (constant) read through an instance
+                for st in src[1].body:
+                    tgt = st.targets[0] if isinstance(st, ast.Assign) and len(st.targets) == 1 else (st.target if isinstance(st, ast.AnnAssign) and st.value is not None else None)
+                    if isinstance(tgt, ast.Name) and tgt.id == attr:
+                        key = (src[0], src[1].name, attr)
+                        if key not in self.vf.modconst:
+                            saved = self.frames, self.st
+                            self.frames = [dict(rel=src[0], func=None, contract=None, class_scope=src[1])]; self.st = State()
+                            try: self.vf.modconst[key] = self.eval(st.value)
+                            finally: self.frames, self.st = saved
+                        return self.vf.modconst[key]
             raise Unsupported('attribute %s on %r' % (attr, ty))
         if ty is TStr or isinstance(ty, (TSeq, TSet, TMap, TTuple, TOMap)) or ty is TInt:
             return BoundBuiltin(obj, attr, node.value if node is not None else None)
